@@ -62,7 +62,7 @@ IntBin(op, a, b) ==
       [] op = "*" -> Ok(MkInt(IntMul(a, b)))
       [] op = "//" -> IF b.s = 0 THEN Throw ELSE Ok(MkInt(IntDivModFloor(a, b)[1]))
       [] op = "%%" -> IF b.s = 0 THEN Throw ELSE Ok(MkInt(IntDivModFloor(a, b)[2]))
-      [] op = "%" -> IF b.s = 0 THEN Unspec ELSE Ok(MkInt(IntDivRemTrunc(a, b)[2]))
+      [] op = "%" -> IF b.s = 0 THEN Throw ELSE Ok(MkInt(IntDivRemTrunc(a, b)[2]))
       [] op = "/!" -> IF b.s = 0 THEN Throw
                       ELSE LET qr == IntDivModFloor(a, b)
                            IN IF qr[2].s # 0 THEN Throw ELSE Ok(MkInt(qr[1]))
@@ -134,7 +134,7 @@ RatBin(op, p, q) ==
       [] op = "//" -> IF q.n.s = 0 THEN Throw ELSE Ok(MkRat(RatFromInt(RatFloor(RatDiv(p, q)))))
       [] op = "%%" -> IF q.n.s = 0 THEN Throw
                       ELSE Ok(MkRat(RatSub(p, RatMul(q, RatFromInt(RatFloor(RatDiv(p, q)))))))
-      [] op = "%" -> IF q.n.s = 0 THEN Unspec
+      [] op = "%" -> IF q.n.s = 0 THEN Throw
                      ELSE Ok(MkRat(RatSub(p, RatMul(q, RatFromInt(RatTrunc(RatDiv(p, q)))))))
       [] op = "==" -> Ok(Bool(RatCmp(p, q) = 0))
       [] op = "!=" -> Ok(Bool(RatCmp(p, q) # 0))
